@@ -248,6 +248,15 @@ struct Exec {
         if (r < 0 || r >= n) ok = false;
         return r;
     }
+    // ARGUMENT ALIASING: with a modest, tape-determined frequency an operation passes a pointer the LIBRARY returned and
+    // still owns (a name from vnacal_get_name, a value from vnaproperty_get, the object's own vectors ...) instead of a
+    // private copy.  The decision is a function of values already drawn (the call counter), so old tapes keep their meaning.
+    bool alias_turn(unsigned every = 2) const { return (ncalls % every) == 0; }
+    // name argument of vnacal_add_calibration / vnacal_find_calibration: the library's own string when a live calibration has it
+    const char *name_arg(CalObj &K, const std::string &name, const char *fn) {
+        if (alias_turn()) { int end = vnacal_get_calibration_end(K.p); for (int ci = 0; ci < end; ci++) { const char *nm = vnacal_get_name(K.p, ci); if (nm && name == nm) { c.label(std::string("alias:") + fn); return nm; } } }
+        return name.c_str();
+    }
     dcx gval() { return c.boolean() ? mkc((double)c.range(-9, 9), (double)c.range(-9, 9)) : mkc(c.real(-2, 2), c.real(-2, 2)); }
     dcx gz0() { return c.boolean() ? mkc((double)c.range(1, 200), 0.0) : mkc(c.real(1, 500), c.real(-200, 200)); }
 
